@@ -456,6 +456,43 @@ func (env *specEnv) call(e *ast.CallExpr) Val {
 			return Val{ts: []Term{implies(env.eval(e.Args[0]).ts[0], env.eval(e.Args[1]).ts[0])}}
 		case "verif_iff":
 			return Val{ts: []Term{eq(env.eval(e.Args[0]).ts[0], env.eval(e.Args[1]).ts[0])}}
+		case "verif_raw":
+			// the mathematical value of an integer/reference expression, without any conversion
+			v := env.eval(e.Args[0])
+			if len(v.ts) == 0 {
+				return env.fail(e, "raw() of empty value")
+			}
+			return Val{ts: []Term{asInt(v.ts[0], leaves(env.typeOf(e.Args[0]))[0].Sort)}}
+		case "verif_same":
+			// identity of two values Go cannot compare (func values, slices): leaf-wise equality
+			a, b := env.eval(e.Args[0]), env.eval(e.Args[1])
+			if len(a.ts) != len(b.ts) {
+				return env.fail(e, "same() on different shapes")
+			}
+			var cs []Term
+			for i := range a.ts {
+				cs = append(cs, eq(a.ts[i], b.ts[i]))
+			}
+			return Val{ts: []Term{and(cs...)}}
+		case "verif_calls", "verif_lastarg", "verif_lastres":
+			tv := env.info.Types[e.Args[0]]
+			if tv.Value == nil {
+				return env.fail(e, "counter name must be a string constant")
+			}
+			cn := strings.Trim(tv.Value.ExactString(), `"`)
+			key := "$cnt:" + cn
+			if id.Name == "verif_lastres" {
+				key = "$res:" + cn
+			}
+			if id.Name == "verif_lastarg" {
+				iv := env.info.Types[e.Args[1]]
+				if iv.Value == nil {
+					return env.fail(e, "argument index must be a constant")
+				}
+				key = fmt.Sprintf("$arg:%s:%s", cn, iv.Value.ExactString())
+			}
+			x.regKey(key, "Int")
+			return Val{ts: []Term{x.hget(env.h(), key)}}
 		case "verif_fresh":
 			// the reference was allocated during the call (above the allocation top at entry)
 			x.regKey(keyAlloc, "Int")
